@@ -5,6 +5,7 @@ go 1.25.0
 require (
 	filippo.io/edwards25519 v1.2.0
 	github.com/aperturerobotics/bifrost v0.0.0
+	github.com/aperturerobotics/cli v1.1.0
 	github.com/aperturerobotics/controllerbus v0.53.1
 	github.com/aperturerobotics/starpc v0.49.3
 	github.com/aperturerobotics/util v1.33.1
@@ -24,6 +25,7 @@ require (
 	github.com/aperturerobotics/protobuf-go-lite v0.12.2 // indirect
 	github.com/bwesterb/go-ristretto v1.2.3 // indirect
 	github.com/cloudflare/circl v1.6.3 // indirect
+	github.com/ghodss/yaml v1.0.0 // indirect
 	github.com/google/uuid v1.6.0 // indirect
 	github.com/ipfs/go-cid v0.0.7 // indirect
 	github.com/klauspost/compress v1.18.5 // indirect
@@ -55,11 +57,13 @@ require (
 	github.com/pkg/errors v0.9.1 // indirect
 	github.com/spaolacci/murmur3 v1.1.0 // indirect
 	github.com/wlynxg/anet v0.0.5 // indirect
+	github.com/xrash/smetrics v0.0.0-20250705151800-55b8f293f342 // indirect
 	golang.org/x/crypto v0.50.0 // indirect
 	golang.org/x/exp v0.0.0-20250408133849-7e4ce0ab07d0 // indirect
 	golang.org/x/net v0.52.0 // indirect
 	golang.org/x/sys v0.43.0 // indirect
 	golang.org/x/time v0.12.0 // indirect
+	gopkg.in/yaml.v2 v2.4.0 // indirect
 	lukechampine.com/blake3 v1.2.1 // indirect
 )
 
